@@ -10,6 +10,7 @@ import (
 	"net/http/httptest"
 	"net/url"
 	"strings"
+	"sync/atomic"
 	"testing"
 	"time"
 
@@ -136,7 +137,7 @@ func genScript(t *rapid.T) *script {
 	if rapid.IntRange(0, 5).Draw(t, "info") == 0 {
 		s.info = 103
 	}
-	s.status = rapid.SampledFrom([]int{0, 0, 200, 201, 204, 304, 404, 418, 500, 503}).Draw(t, "status")
+	s.status = rapid.SampledFrom([]int{0, 0, 200, 201, 204, 205, 206, 304, 404, 418, 500, 503}).Draw(t, "status")
 	for i := rapid.IntRange(0, 5).Draw(t, "nh"); i > 0; i-- {
 		s.headers = append(s.headers, [2]string{rapid.SampledFrom([]string{"X-A", "X-B", "Set-Cookie", "Vary", "Link", "Content-Type", "Cache-Control"}).Draw(t, "hn"), rapid.StringMatching(`[a-z0-9=]{1,8}`).Draw(t, "hv")})
 	}
@@ -396,9 +397,25 @@ func serve(h http.Handler, rec *sim.Recorder, req *http.Request, hijack bool, pl
 			}
 		}
 	} else {
-		<-done
+		select {
+		case <-done:
+		case <-time.After(stallAfter()):
+			stalled.Store(true)
+			return "", "STALL: the stack did not answer the request (frozen clock, instant handlers): a request is stuck inside a middleware"
+		}
 	}
 	return string(hijacked), panicked
+}
+
+// stalled: a stall was seen in this process already (shrinking re-runs variants: do not sit each
+// of them out).
+var stalled atomic.Bool
+
+func stallAfter() time.Duration {
+	if stalled.Load() {
+		return time.Second
+	}
+	return 20 * time.Second
 }
 
 // tlsRequests: the requests of the current case arrived over TLS (the tracer records that).
@@ -606,7 +623,9 @@ func TestC20_Intervening(t *testing.T) {
 		warm := func(status int) {
 			req := newRequest(0)
 			req.Header.Set("X-Warm", fmt.Sprint(status))
-			h.ServeHTTP(sim.NewRecorder(), req)
+			if _, p := serve(h, sim.NewRecorder(), req, false); p != nil {
+				t.Fatalf("warm-up request: %v\n%s", p, desc)
+			}
 		}
 		switch layers[pos] {
 		case "ratelimit":
